@@ -80,6 +80,15 @@ CHECKS = {
                  "the implementation (26 base shapes x 21 segments, all pairs) and the model, not proved. Known finding F28."),
         "design_ref": "DESIGN.md section 7 C13",
     },
+    "C14": {
+        "text": ("Proved: a reference with a different scheme or a base scheme outside USES_RELATIVE is returned unchanged; otherwise the five "
+                 "encoded components of join are exactly RFC 3986 5.2.2 (non-strict) with 5.2.3 merge and 5.2.4 remove_dot_segments "
+                 "(Spec/Resolve.v, transcribed independently) whenever the merged path is rooted (base with authority or rooted path, or "
+                 "empty/rooted reference path). PARTIAL: rootless base + rootless reference is outside the theorem; there known finding F19 "
+                 "(refuted witness) applies exactly when the merged path has a dot segment; everything else is checked by the extracted "
+                 "transform predicate on ~66k base x reference pairs per run (both backends)."),
+        "design_ref": "DESIGN.md section 7 C14",
+    },
     "C15": {
         "text": ("Unbounded theorems: the model of normalize_path equals RFC 3986 5.2.4 remove_dot_segments (transcribed independently, "
                  "string level) on every rooted path, leaves no dot segment and is idempotent. The tie to the Python source is a "
